@@ -179,7 +179,12 @@ class ReobsGen:
             if x < 0.5:
                 c = r.choice(ids) if r.random() < 0.85 else r.choice(unknown)
                 tx = r.choice(txs)
-                steps.append(self.req(c, tx))
+                idle = r.random() < 0.35
+                steps.append(self.reqi(c, tx) if idle else self.req(c, tx))
+                if idle and r.random() < 0.3:
+                    if r.random() < 0.5:
+                        steps.append({"ev": "Drain", "a": {"c": str(c)}})
+                    steps.append(self.reqi(c, tx))                     # the same request again, back to back
                 if (c, tx) not in sent or now - sent[(c, tx)] >= W:
                     sent[(c, tx)] = now
             elif x < 0.75:
@@ -294,6 +299,48 @@ class ReobsGen:
         for c, tx in probe[:2]:
             steps.append(self.req(c, tx))                         # and remembered afresh
         return {"cfg": {"caps": {"2": cap, "4": cap}, "fill": {}, "outcap": 1, "unit": 1}, "steps": steps, "src": "gen-burst-%d" % n}
+
+    def reqi(self, c, tx):
+        """A request after which the harness sends nothing (it waits for the router to be idle), so that the next request of
+        the history is the next request the router receives."""
+        return {"ev": "Request", "a": {"c": str(c), "tx": tx, "sync": "idle"}}
+
+    def repeat(self):
+        """Copies of ONE request arriving back to back (2..5, nothing in between on the request channel), as all guardians'
+        cleanup passes produce them.  The first copy meets a full queue, no watcher, an id beyond 16 bits, or is forwarded;
+        the harness drains the queue between the copies, lets time pass, or does nothing.  A copy that was not forwarded
+        has left no memory: the next copy is forwarded as soon as the chain is served and has room."""
+        r = self.r
+        k = r.choice([1, 1, 2, 3])
+        first = r.choice(["full", "full", "full", "forwarded", "unknown", "wide"])
+        caps = {"2": k, "4": r.choice([1, 2])}
+        fill = {"2": ["f%03x" % i for i in range(k if first == "full" else r.randrange(0, k))]}
+        tx = self.tx()
+        c = {"full": 2, "forwarded": 2, "unknown": 9, "wide": r.choice([65538, 65540, 131074])}[first]
+        steps = []
+        if r.random() < 0.3:
+            steps.append(self.adv(r.choice([1, 100, 419, 420, 500])))
+        if r.random() < 0.3:
+            steps.append(self.reqi(4, self.tx()))                      # some other request came before
+        n = r.randrange(2, 6)
+        for i in range(n):
+            steps.append(self.reqi(c, tx))
+            if i < n - 1:
+                y = r.random()
+                if y < 0.55:
+                    steps += [{"ev": "Drain", "a": {"c": "2"}}] * r.choice([1, 1, k])
+                elif y < 0.7:
+                    steps.append(self.adv(r.choice([1, 59, P - 1, P, P + 1])))
+                elif y < 0.8:
+                    steps.append({"ev": "Post", "a": {"id": self.tx() or "00", "api": r.random() < 0.5}})
+        steps += [{"ev": "Drain", "a": {"c": "2"}}] * k
+        steps.append(self.reqi(c, tx))
+        steps.append(self.reqi(4, tx))                                 # same tx, other chain, back to back
+        steps.append(self.reqi(4, tx))
+        steps.append(self.adv(r.choice([W - 1, W + P])))
+        steps.append(self.reqi(c, tx))
+        steps.append(self.reqi(c, tx))
+        return {"cfg": {"caps": caps, "fill": fill, "outcap": 1, "unit": 1}, "steps": steps, "src": "gen-repeat"}
 
     def fill(self):
         """Watcher queues and the outbound queue at every fill level; dropped requests asked again."""
@@ -444,7 +491,10 @@ def reobs_annotate(lines):
             while st["old"] < len(st["fwdt"]) and st["now"] - st["fwdt"][st["old"]] >= W:
                 st["old"] += 1
             live = len(st["fwdt"]) - st["old"]           # forwards younger than W: what a suppression cache must hold
+            back2back = st.get("prev") == (c, tx)
+            st["prev"] = (c, tx) if a.get("sync") == "idle" else None   # a sentinel follows otherwise
             cls.update(known=known, wide=wide, fill=fillc, age=agec, fwd=bool(fwd), grew=grew, phase=(st["now"] % P == 0),
+                       back2back=back2back, idle=a.get("sync") == "idle",
                        to_low16=bool(wide and low in grew), alias=alias, txlen=len(tx) // 2,
                        live="le100" if live <= 100 else "le1000" if live <= 1000 else "gt1000")
             if fwd:
@@ -453,6 +503,7 @@ def reobs_annotate(lines):
                 for k in _tx_norms(tx):
                     st["norm"].setdefault((c, k), set()).add(tx)
         elif ev == "Advance":
+            st["prev"] = None                                           # sentinels are sent while the clock settles
             cls.update(ticks=min(s.get("ticks", 0), 3), mode=a.get("mode"),
                        coalesced=s.get("ticks", 0) > s.get("clock_reads", 0) > 0, long=a.get("dt", 0) > W + P)
             st["now"] += a.get("dt", 0)
@@ -490,7 +541,9 @@ def reobs_signature(rej, line, cls):
         sig = "Request/%s/age-%s/queue-%s/%s" % (who, cls.get("age"), cls.get("fill"), out)
         if out == "forwarded" and cls.get("age") == "ltW" and cls.get("live") == "gt1000":
             sig += "/more-than-1000-pairs-in-window"     # forgotten inside its window while a long burst was being remembered
-        if out == "dropped" and cls.get("age") == "never" and cls.get("alias"):
+        if out == "dropped" and cls.get("back2back"):
+            sig += "/copy-of-the-previous-request"       # the request before it on the channel was the same one (and was not forwarded)
+        elif out == "dropped" and cls.get("age") == "never" and cls.get("alias"):
             sig += "/tx-id-aliases-a-forwarded-one"      # a different id that collides with a remembered one after cropping / padding
         return sig
     if ev == "Post" and line.get("a", {}).get("via") == "cleanup":
